@@ -8,6 +8,7 @@ import (
 )
 
 type FileStream struct {
+	file      *os.File
 	reader    *eofReader
 	encBuffer []byte
 	path      string
@@ -45,11 +46,22 @@ func NewFileStream(path string) (*FileStream, error) {
 	}
 
 	return &FileStream{
+		file:      reader,
 		reader:    &eofReader{r: reader},
 		encBuffer: []byte{},
 		path:      path,
 		hasRead:   false,
 	}, nil
+}
+
+// Close - give the file back (an execution that has read its sources holds no descriptor)
+func (f *FileStream) Close() error {
+	if f.file == nil {
+		return nil
+	}
+	err := f.file.Close()
+	f.file = nil
+	return err
 }
 
 func (f *FileStream) ReadAll() ([]rune, error) {
